@@ -95,9 +95,10 @@ static ares_status_t ares_search_next(ares_channel_t      *channel,
   status = ares_send_nolock(channel, NULL, 0, squery->dnsrec, search_callback,
                             squery, NULL);
 
-  if (status != ARES_EFORMERR) {
-    *skip_cleanup = ARES_TRUE;
-  }
+  /* ares_send_nolock() always invokes the callback, also on failure (whatever
+   * the status), so the search query has already been cleaned up or is owned
+   * by the outstanding request */
+  *skip_cleanup = ARES_TRUE;
 
   return status;
 }
